@@ -29,6 +29,8 @@ type Config struct {
 	PeerPause         bool  `json:"peer_pause,omitempty"` // the scripted peer waits 40 s (virtual) before every segment
 	// ReadTO / WriteTO: Server.ReadTimeout / WriteTimeout individually (0: not set); with these the scripted
 	// connection honours the armed read deadline like a real one (a wait that outlasts it ends in a timeout)
+	// FinalWithErr: the scripted connection returns its last octets together with the terminal answer (one Read)
+	FinalWithErr bool `json:"final_with_err,omitempty"`
 	// Debug: Server.Debug is set (a writer that receives a copy of the traffic)
 	Debug bool `json:"debug,omitempty"`
 	// LongPauseBefore: the scripted peer is silent for 5 minutes before that segment (1-based; 0: never)
@@ -121,6 +123,7 @@ func RunS(cfg Config, be *Backend, segs [][]byte, term string) *Obs {
 	if cfg.PeerPause {
 		sc.Pause = 40 * time.Second
 	}
+	sc.FinalWithErr = cfg.FinalWithErr
 	if cfg.LongPauseBefore > 0 {
 		sc.LongPauseBefore, sc.LongPause = cfg.LongPauseBefore, 5*time.Minute
 	}
